@@ -55,8 +55,8 @@ def w_rules(arg):
             out, crash, steps = trace.traced_format(text, case.get("options"))
             cache = {text: base}
             for st in steps:
-                if st["in"] == text:
-                    continue  # already covered by the isolated call
+                if st["in"] == text or st["rule"].startswith("processing.chain["):
+                    continue  # already covered by the isolated call / a chained step (its parts are rules of their own; C01 attributes it)
                 if st["in"] not in cache:
                     cache[st["in"]] = oracle_exec.run_program(st["in"])
                 b = cache[st["in"]]
